@@ -146,19 +146,66 @@ def merge_trace(raw_path, out_path):
     return evs
 
 
-def validate(c, trace_path, what, timeout):
+CHUNK = 6000     # events per TLC run: TLC cannot handle behaviours longer than 65535 states (about 4 states per event)
+
+
+def split_chunks(evs):
+    """[(index of first event, events)]: whole runs (each starts with its reset event), at most CHUNK events"""
+    starts = [i for i, e in enumerate(evs) if e["ev"] == "reset"] + [len(evs)]
+    chunks, cur = [], starts[0]
+    for k in range(1, len(starts)):
+        if starts[k] - cur > CHUNK and starts[k - 1] > cur:
+            chunks.append((cur, evs[cur:starts[k - 1]]))
+            cur = starts[k - 1]
+    chunks.append((cur, evs[cur:]))
+    return chunks
+
+
+def validate_chunk(c, k, evs, what, timeout):
     """own variant of vlib.validate_trace: the trace spec has internal steps, so progress is reported by the spec
-    itself (TRACE-PROGRESS lines) and acceptance by the POSTCONDITION."""
-    total = sum(1 for l in open(trace_path) if l.strip())
-    res = vlib.tlc(SPEC_DIR, "MempoolTrace", "MempoolTrace.cfg", os.path.join(c.work, "trace"), workers=1, timeout=timeout,
-                   files={"trace.ndjson": trace_path})
+    itself (TRACE-PROGRESS line) and acceptance by the POSTCONDITION.  Returns (accepted, events consumed, TlcResult)."""
+    wd = os.path.join(c.work, "trace%d" % k)
+    os.makedirs(wd, exist_ok=True)
+    path = os.path.join(wd, "chunk.ndjson")
+    with open(path, "w") as f:
+        for e in evs:
+            f.write(json.dumps(e) + "\n")
+    res = vlib.tlc(SPEC_DIR, "MempoolTrace", "MempoolTrace.cfg", wd, workers=1, timeout=timeout, heap="3g",
+                   files={"trace.ndjson": path})
     m = None
     for m in re.finditer(r'"TRACE-PROGRESS", (\d+), (\d+)', res.out):
         pass
-    reached = int(m.group(1)) if m else 0
     if res.violation == "timeout" or (not res.ok and "ostcondition" not in res.out) or m is None:
-        raise vlib.Infra("trace validation (%s) produced no verdict (%s):\n%s" % (what, res.violation, res.out[-3000:]))
-    return res.ok and reached == total, reached, total, res
+        raise vlib.Infra("trace validation (%s, chunk %d) produced no verdict (%s):\n%s" % (what, k, res.violation, res.out[-3000:]))
+    reached = int(m.group(1))
+    return res.ok and reached == len(evs), reached, res
+
+
+def validate(c, evs, what, timeout):
+    """validate all chunks (4 TLC runs at a time); (accepted, index of the first event that could not be consumed, [TlcResult])"""
+    chunks = split_chunks(evs)
+    out = [None] * len(chunks)
+    sem = threading.Semaphore(4)
+
+    def job(k):
+        with sem:
+            try:
+                out[k] = validate_chunk(c, k, chunks[k][1], what, timeout)
+            except Exception as e:
+                out[k] = e
+    ths = [threading.Thread(target=job, args=(k,)) for k in range(len(chunks))]
+    for t in ths:
+        t.start()
+    for t in ths:
+        t.join()
+    for o in out:
+        if isinstance(o, Exception):
+            raise o if isinstance(o, vlib.Infra) else vlib.Infra("trace validation failed: %r" % (o,))
+    bad = None
+    for k, (ok, reached, res) in enumerate(out):
+        if not ok and bad is None:
+            bad = chunks[k][0] + reached
+    return bad is None, bad, [o[2] for o in out]
 
 
 def run(c):
@@ -206,7 +253,7 @@ def run(c):
     g2, n2 = build_graph("G2q" if quick else "G2", results["g2"], ["a1", "a2"], backends, rng, nwalks, wlen)
     if n1 < 10000 or n2 < 10000:
         raise vlib.Infra("too few transitions generated: %d / %d" % (n1, n2))
-    conc = dict(runs=32 if quick else 160, rounds=6 if quick else 8, accounts=["a1", "a2", "a3"], max_nonce=4,
+    conc = dict(runs=32 if quick else 120, rounds=6 if quick else 8, accounts=["a1", "a2", "a3"], max_nonce=4,
                 putters=2, readers=1, ops_per=3, backends=backends)
     rawtrace = os.path.join(c.work, "mempool_trace_raw.ndjson")
 
@@ -247,34 +294,29 @@ def run(c):
         raise vlib.Infra("harness wrote no trace")
     trace = os.path.join(c.work, "mempool_trace.ndjson")
     evs = merge_trace(rawtrace, trace)
-    ok, reached, total, tres = validate(c, trace, "concurrent runs", 1500 if quick else 3000)
-    c.add_tlc(tres, "trace validation of %d concurrent runs (MempoolTrace)" % conc["runs"])
+    ok, bad, tress = validate(c, evs, "concurrent runs", 1500 if quick else 3000)
+    for i, tres in enumerate(tress):
+        c.add_tlc(tres, "trace validation of the concurrent runs (MempoolTrace), part %d of %d" % (i + 1, len(tress)))
     if not ok:
-        lines = [l for l in open(trace) if l.strip()]
-        k = min(reached, len(lines) - 1)
-        start = max(i for i in range(k + 1) if '"reset"' in lines[i])
-        head = json.loads(lines[start])
-        c.violation({"kind": "trace-rejected", "backend": head.get("backend"), "event": json.loads(lines[k]).get("op", json.loads(lines[k])["ev"])},
-                    {"event_index": k, "event": lines[k], "run": [json.loads(x) for x in lines[start:k + 6]]},
+        start = max(i for i in range(bad + 1) if evs[i]["ev"] == "reset")
+        head, e = evs[start], evs[bad]
+        c.violation({"kind": "trace-rejected", "backend": head.get("backend"), "event": e.get("op", e["ev"])},
+                    {"event_index": bad, "event": e, "run": evs[start:bad + 6]},
                     "no interleaving of the critical sections of Mempool.tla explains the recorded concurrent run %s (%s back end): "
-                    "stuck at event %d of %d: %s" % (head.get("run"), head.get("backend"), k, total, lines[k][:400]))
+                    "stuck at event %d of %d: %s" % (head.get("run"), head.get("backend"), bad, len(evs), json.dumps(e)[:400]))
         return
     c.traces_validated = conc["runs"]
-    # binding self-test: a trace in which one accepted put is reported as rejected must be refused
+    # binding self-test: a run in which one accepted put is reported as rejected must be refused
     idx = [i for i, e in enumerate(evs) if e["ev"] == "call" and e.get("op") == "put" and e.get("res") == "ok"]
     if not idx:
         raise vlib.Infra("no accepted put in the concurrent runs")
     i = idx[rng.randrange(len(idx))]
-    bad = os.path.join(c.work, "mempool_trace_bad.ndjson")
-    with open(bad, "w") as f:
-        for j, e in enumerate(evs):
-            if j == i:
-                e = dict(e, res="rej")
-            f.write(json.dumps(e) + "\n")
-    ok2, reached2, _, _ = validate(c, bad, "self-test", 1500 if quick else 3000)
+    first, chunk = [(f, ch) for f, ch in split_chunks(evs) if f <= i < f + len(ch)][0]
+    badchunk = [dict(e, res="rej") if first + j == i else e for j, e in enumerate(chunk)]
+    ok2, reached2, _ = validate_chunk(c, 99, badchunk, "self-test", 1500 if quick else 3000)
     if ok2:
         raise vlib.Infra("binding self-test failed: corrupted trace accepted")
-    c.notes.append("self-test: trace with put result flipped at event %d rejected at event %d" % (i, reached2))
+    c.notes.append("self-test: trace with put result flipped at event %d rejected at event %d" % (i, first + reached2))
 
 
 def _stacks(rep):
